@@ -15,6 +15,7 @@ E1_NOTE = "Trusted: the harness's reference model and canonical key (DESIGN.md a
 NOT_APPLICABLE = {}
 
 ENGINES = [
+    {'name': 'inputx', 'path': 'worlds/sort_world.c', 'serves_properties': ['C11', 'C17'], 'kind_free_text': 'complete enumeration of bounded input spaces (arrays, keys, table sizes, environment answers) against direct oracles'},
     {'name': 'faultx', 'path': 'worlds/fault_world.c', 'serves_properties': ['C16'], 'kind_free_text': 'exhaustive allocation-fault enumeration over scripted histories (ld --wrap on malloc/calloc/realloc/free), reference model per step, leak audit'},
     {'name': 'schedx', 'path': 'engine/sched.c', 'serves_properties': ['C06'], 'kind_free_text': 'controlled scheduler: ucontext coroutines, the -fsanitize=thread compiler ABI implemented by the harness so that every shared-memory access of the unmodified library is a scheduling point; stateless DFS over all interleavings with visited-state pruning'},
     {'name': 'seqx', 'path': 'engine/mc.h', 'serves_properties': ['C01', 'C02', 'C03', 'C04', 'C05', 'C07', 'C08', 'C12', 'C09', 'C10', 'C13', 'C14', 'C15', 'C19'], 'kind_free_text': 'explicit-state breadth-first closure search over the real library code; state = operation history replayed on fresh objects, deduplicated by a canonical serialisation of the real data structure; reference model + oracles on every transition'},
@@ -185,5 +186,15 @@ PROPS = {
         'jobs': [{'world': 'faultx', 'src': 'worlds/fault_world.c', 'lib': ['map.c', 'rbtree.c', 'bintree.c', 'vector.c', 'string.c', 'memory.c', 'array.c', 'common.c'], 'unity': True, 'flavours': RELDBG_ALWAYS}],
         'rule': 'one evaluation = one complete script run under one fault set; non-trivial = runs in which at least one allocation failure was actually injected (every enumerated fault set is distinct)',
         'assumptions': ['fault sets of size <= 3 and all suffixes', 'allocation failure is the only injected fault'],
+    },
+    'C11': {
+        'level': 'exploration',
+        'engine': 'inputx',
+        'claim': 'Complete enumeration of a bounded input space: every array of length 0..7 (thorough 0..9) over a 4-letter key alphabet, each element carrying an identity tag, for element sizes {1,2,4,8} (fast paths) and {3,12,16,24} (memcpy path), selectors QUICK, QUICK_M, HEAP and the out-of-range values -1, 4, 2897234, through cstl_raw_array_sort on an exactly sized heap block (AddressSanitizer red zones on both sides and around the scratch element) and through __cstl_vector_sort with capacity == size and capacity > size; for the randomised quicksort every value every rand() call can return is enumerated depth-first for lengths <= 5 (thorough 6); linear find on every array, binary search on every sorted array for 9 probes (present, absent below/between/above), reverse through both entry points; thorough adds 1000- and 4097-element sorted / reversed / constant / two-valued / organ-pipe / sawtooth inputs.',
+        'note': 'Exhaustive within the stated bound, not a state-space search. Element counts above INT_MAX (the int indices of reverse/search) are not reachable by enumeration and are not claimed. A comparison-count watchdog turns non-termination into a violation.',
+        'technique': 'exhaustive enumeration of all inputs up to a length bound x all algorithm selectors x all environment answers (rand), oracle = sorted permutation of the same tagged elements + ASan',
+        'jobs': [{'world': 'sortx', 'src': 'worlds/sort_world.c', 'lib': ['array.c', 'vector.c', 'memory.c'], 'flavours': RELDBG_ALWAYS}],
+        'rule': 'one evaluation = one (array, element size, selector, entry point[, pivot sequence]) sort or one (array, probe) search; non-trivial = arrays with at least two elements; all enumerated cases are distinct',
+        'assumptions': ['length <= 7 (quick) / 9 (thorough), 4 key values', 'gcc 12, shipped flags + ASan and -O0 + ASan'],
     },
 }
